@@ -59,9 +59,19 @@ def xml_cases(tier):
                 yield {'kind': 'xml', 'a': a, 'b': b, 'opt': ['auto', 'on']}
 
 
+def csv_cases(tier):
+    tables = pairspace.csv_tables(('a', 'b'), 2, 2) if tier == 'quick' else pairspace.csv_tables(('a', 'b', ''), 2, 2)
+    for a in tables:
+        for b in tables:
+            # tables that differ only by blank rows are equal by the code's own rule and unspecified by the property
+            if [r for r in a if r] == [r for r in b if r] and a != b:
+                continue
+            yield {'kind': 'csv', 'a': a, 'b': b, 'opt': ['auto', 'on']}
+
+
 def all_cases(tier):
     idx = 0
-    for gen in (json_cases(tier), xml_cases(tier)):
+    for gen in (json_cases(tier), xml_cases(tier), csv_cases(tier)):
         for c in gen:
             yield idx, c
             idx += 1
@@ -77,6 +87,15 @@ def xml_equal(a, b):
 def data_equal(case):
     if case['kind'] == 'xml':
         return xml_equal(case['a'], case['b'])
+    if case['kind'] == 'csv':
+        import csv as pycsv
+        import io as _io
+
+        def parsed(t):
+            buf = _io.StringIO()
+            pycsv.writer(buf).writerows(t)
+            return list(pycsv.reader(_io.StringIO(buf.getvalue())))
+        return parsed(case['a']) == parsed(case['b'])
     return canon(case['a']) == canon(case['b'])
 
 
@@ -131,7 +150,7 @@ def evaluate(case, with_cli=True):
                 kindk = 'zero_cost_for_unequal' if not eq else 'positive_cost_for_equal'
                 return {'key': f'{kindk} @ {site} : {tag}',
                         'detail': f'A={case["a"]!r} B={case["b"]!r} cost={cost} any_nonzero_edit={had} equal={eq}'}, None
-            for color in (False, True):
+            for color in ((False, True) if kind != 'csv' else ()):
                 text = render(d, color)
                 marks = cli.has_marks(text, color)
                 if marks == eq:
@@ -139,10 +158,25 @@ def evaluate(case, with_cli=True):
                                    f'color={color} : {tag}',
                             'detail': f'A={case["a"]!r} B={case["b"]!r} rendered {text!r}'}, None
             rc = None
-            if with_cli and kind == 'json':
+            if with_cli and kind in ('json', 'xml', 'csv'):
                 dirp = pairspace.tmpdir()
-                fa = cli.write_file(dirp, 'a.json', json.dumps(case['a']))
-                fb = cli.write_file(dirp, 'b.json', json.dumps(case['b']))
+                if kind == 'json':
+                    fa = cli.write_file(dirp, 'a.json', json.dumps(case['a']))
+                    fb = cli.write_file(dirp, 'b.json', json.dumps(case['b']))
+                elif kind == 'xml':
+                    import xml.etree.ElementTree as ET
+                    fa = cli.write_file(dirp, 'a.xml', ET.tostring(pairspace.xml_element(case['a']), encoding='unicode'))
+                    fb = cli.write_file(dirp, 'b.xml', ET.tostring(pairspace.xml_element(case['b']), encoding='unicode'))
+                else:
+                    import csv as pycsv
+                    import io as _io
+                    texts = []
+                    for t in (case['a'], case['b']):
+                        buf = _io.StringIO()
+                        pycsv.writer(buf).writerows(t)
+                        texts.append(buf.getvalue())
+                    fa = cli.write_file(dirp, 'a.csv', texts[0])
+                    fb = cli.write_file(dirp, 'b.csv', texts[1])
                 o = cli.run_main(['--no-color', '--no-status'] + cli_flags(tuple(opt)) + [fa, fb])
                 if o.exc:
                     return {'key': f'cli_exception {o.exc} @ {o.exc_site} : {tag}', 'detail': o.tb}, None
